@@ -1,13 +1,13 @@
 SPECIFICATION Spec
 CONSTANTS
-  Tokens <- QuickTokens
+  Tokens <- AllTokens
   Tok <- TokTable
-  ArgSet <- Args_QuickTokens_3
+  ArgSet <- Args_Pipe_4
   FormatNames <- Names
   Files <- FileTable
   Lib <- LibTable
-  StdinContent = "cy"
-  StdoutKinds = {"pipe", "tty"}
+  StdinContent = "chuge"
+  StdoutKinds = {"closed", "full"}
 INVARIANT CliInv
 INVARIANT Export
 CHECK_DEADLOCK FALSE
